@@ -484,7 +484,7 @@ pub fn sized_table(k: usize, n: usize, special: u32, surv: usize, gone: usize, s
 }
 
 /// row counts on and next to block sizes that row-processing code is likely to use
-pub const BOUNDARY_SIZES: [usize; 14] = [255, 256, 257, 1023, 1024, 1025, 2047, 2048, 2049, 3072, 4095, 4096, 4097, 8192];
+pub const BOUNDARY_SIZES: [usize; 18] = [255, 256, 257, 1023, 1024, 1025, 2047, 2048, 2049, 3072, 4095, 4096, 4097, 8192, 12288, 65535, 65536, 65537];
 
 pub fn show_samples(samples: &[Sample]) -> String {
     format!("{:?}", samples.iter().map(|(n, r)| (n.clone(), r.iter().map(|x| lossy(x)).collect::<Vec<_>>())).collect::<Vec<_>>())
